@@ -25,7 +25,7 @@ func VerifC07EndBlocker() {
 	e.k.SetLastTotalPower(e.ctx)
 
 	// pending oracle sets (created at or before the current height)
-	nSets := rt.Choose("oracleSets", rt.Bound("maxOracleSets", 1, 2)+1)
+	nSets := rt.Choose("oracleSets", rt.Bound("maxOracleSets", 1, 1)+1)
 	for s := 1; s <= nSets; s++ {
 		hgt := rt.U64(fmt.Sprintf("oracleSet%d.height", s))
 		rt.Assume(hgt <= uint64(ctxH))
